@@ -232,6 +232,18 @@ fn gen_history(kind: &str, rng: &mut Rng) -> Vec<Step> {
             }
         }
     }
+    if kind == "CoseSign" && rng.chance(1, 3000) {
+        // "any number of signers": a block of n plain signers (distinct signature bytes) somewhere
+        // in the history, n around the places where a count changes its encoding or its type
+        let n = match rng.below(6) {
+            0 => *rng.pick(&[23usize, 24, 25]),
+            1 | 2 => *rng.pick(&[255usize, 256, 257]),
+            3 => rng.range(300, 5000),
+            _ => *rng.pick(&[65_535usize, 65_536, 65_537, 70_000]),
+        };
+        let at = rng.below(ops.len() + 1);
+        ops.insert(at, o("add_signature_bulk", vec![Arg::I(n as i128)]));
+    }
     ops
 }
 
@@ -401,6 +413,7 @@ fn signer(
     fail: bool,
 ) -> impl FnOnce(&[u8]) -> Result<Vec<u8>, String> + '_ {
     move |data: &[u8]| {
+        crate::common::layered_use();
         let mut s = stub.borrow_mut();
         s.calls += 1;
         s.last_bytes = Some(data.to_vec());
@@ -418,6 +431,7 @@ fn cipher(
     fail: bool,
 ) -> impl FnOnce(&[u8], &[u8]) -> Result<Vec<u8>, String> + '_ {
     move |pt: &[u8], aad: &[u8]| {
+        crate::common::layered_use();
         let mut s = stub.borrow_mut();
         s.calls += 1;
         s.last_bytes = Some(aad.to_vec());
@@ -636,6 +650,17 @@ fn send(kind: &str, ops: &[&Step], s: &mut Sender) -> Result<Built, SendErr> {
                         };
                         s.signers.push((id, sig.signature.clone()));
                         b = b.add_signature(sig.to_coset());
+                    }
+                    "add_signature_bulk" => {
+                        let n = step.usize(0)?;
+                        for k in 0..n {
+                            let sg = format!("S{}", k).into_bytes();
+                            s.signers.push((Vec::new(), sg.clone()));
+                            b = b.add_signature(coset::CoseSignature {
+                                signature: sg,
+                                ..Default::default()
+                            });
+                        }
                     }
                     "add_created" | "add_detached" => {
                         let sig = sig_from_args(step, 0)?;
@@ -1156,6 +1181,7 @@ impl<'a> Receiver<'a> {
         let mut seen: Vec<(Vec<u8>, Vec<u8>)> = Vec::new();
         let wr = want_ret.clone();
         let mut verifier = |a: &[u8], b: &[u8]| -> Result<Vec<u8>, String> {
+            crate::common::layered_use();
             seen.push((a.to_vec(), b.to_vec()));
             wr.clone()
         };
@@ -1331,8 +1357,28 @@ fn verify_sign(
             ),
         ));
     }
+    // with very many signers a spread of indices is verified (both ends, evenly spaced between)
+    let n = w.nested.len();
+    let chosen: Vec<usize> = if n <= 48 {
+        (0..n).collect()
+    } else {
+        let mut c: Vec<usize> = (0..8).chain(n - 8..n).collect();
+        c.extend((1..16).map(|k| k * n / 16));
+        c.extend(
+            [254usize, 255, 256, 257, 65_534, 65_535, 65_536]
+                .iter()
+                .copied()
+                .filter(|i| *i < n),
+        );
+        c.sort();
+        c.dedup();
+        c
+    };
     for plan in plans {
         for (i, sw) in w.nested.iter().enumerate() {
+            if chosen.binary_search(&i).is_err() {
+                continue;
+            }
             let stored = sw.slot.clone().unwrap_or_default();
             let t = Tuple {
                 ctx: "Signature".into(),
@@ -1794,6 +1840,12 @@ impl Engine for C06 {
         let faults: Vec<&Step> = t.steps.iter().filter(|s| s.kind == "fault").collect();
         let verifies: Vec<&Step> = t.steps.iter().filter(|s| s.kind == "verify").collect();
         st.inc(&format!("histories:{}", kind));
+        for o in &ops {
+            if o.name == "add_signature_bulk" {
+                st.inc("probe:history-with-a-block-of-signers");
+                st.max("max:signers-in-one-block", o.usize(0)? as u64);
+            }
+        }
         // reach measures
         {
             let mut h = Hasher64::new();
